@@ -353,6 +353,48 @@ def secp_mod(p):
     return cfgload.load_secp(p, 7 % p or 1, 1, 0, 0)
 
 
+def fedback_jac(S, p, inv, t1):
+    """[(label, (expected, observed))] mismatches when raw library outputs are fed back as operands"""
+    out = []
+    A = jaff(p, inv, t1)
+    try:
+        D = S.jacobian_double(t1)
+    except Exception:  # noqa: BLE001
+        return out
+    Da = aff_add(p, inv, A, A)
+    if Da is None or Da[1] == 0:
+        return out
+    z1form = (Da[0], Da[1], 1)  # what to_jacobian(from_jacobian(D)) is
+    cases = [("add(double(P), same point with z = 1)", lambda: S.jacobian_add(D, z1form), aff_add(p, inv, Da, Da)),
+             ("add(same point with z = 1, double(P))", lambda: S.jacobian_add(z1form, D), aff_add(p, inv, Da, Da)),
+             ("add(double(P), double(P))", lambda: S.jacobian_add(D, D), aff_add(p, inv, Da, Da)),
+             ("double(double(P))", lambda: S.jacobian_double(D), aff_add(p, inv, Da, Da)),
+             ("add(double(P), P)", lambda: S.jacobian_add(D, t1), aff_add(p, inv, Da, A)),
+             ]
+    mid = aff_add(p, inv, A, Da)
+    if mid is not None and mid[1] != 0:  # (an intermediate sum with y == 0 cannot be represented: identity marker)
+        cases.append(("add(add(P, double(P)), P)", lambda: S.jacobian_add(S.jacobian_add(t1, D), t1), aff_add(p, inv, mid, A)))
+    fj, tj = getattr(S, "from_jacobian", None), getattr(S, "to_jacobian", None)
+    if fj is not None and tj is not None:
+        cases.append(("add(double(P), to_jacobian(from_jacobian(double(P))))", lambda: S.jacobian_add(D, tj(fj(D))), aff_add(p, inv, Da, Da)))
+    for lbl, f, exp in cases:
+        if exp is not None and exp[1] == 0:
+            continue
+        try:
+            got = jaff(p, inv, f())
+        except Exception as e:  # noqa: BLE001
+            got = "raise " + type(e).__name__
+        if got != exp:
+            out.append((lbl, (exp, got)))
+    return out
+
+
+def replay_jac_fedback(a):
+    p = a["p"]
+    bad = fedback_jac(secp_mod(p), p, inv_table(p), tuple(a["P1"]))
+    return None if not bad else {"case": bad[0][0], "expected": bad[0][1][0], "observed": bad[0][1][1]}
+
+
 def task_jac_grid(a, env):
     p, x1 = a["p"], a["x1"]
     r = R("secp256k1-jacobian-grid")
@@ -386,6 +428,12 @@ def task_jac_grid(a, env):
             if got != exp and exp != "unrepresentable":
                 r.viol("C13:secp256k1:jacobian_double:%s" % ("inf" if A is None else "pt"),
                        ME + ":replay_jac", {"p": p, "op": "double", "P1": list(t1)}, exp, got)
+            # the raw outputs of the library's own functions as operands (not rebuilt from their values):
+            # D = double(t1) against the same point brought to z = 1, against itself and against t1
+            for lbl, bad_out in fedback_jac(S, p, inv, t1):
+                r.ev += 1
+                r.viol("C13:secp256k1:returned-triple-as-operand:%s" % lbl.split("(")[0], ME + ":replay_jac_fedback",
+                       {"p": p, "P1": list(t1)}, bad_out[0], bad_out[1], note=lbl)
             for t2 in dom:
                 B = jaff(p, inv, t2)
                 exp = aff_add(p, inv, A, B)
